@@ -48,7 +48,7 @@ Theorem C01_result_is_function_of_registrations : forall st orc g ops e n vars,
                     pool_seq (PROut [], [n])
                       (fst (pool_eval pool_eval_fuel (pool_spec_resolve st (pool_last_reg ops) e) pool_garbage_none true
                          (pool_cset (pool_ctx_new (pool_garbage_none pool_eval_fuel) (map (fun xv => (fst xv, Some (snd xv))) vars))
-                                    b#"lastLoadedTemplate" FVPtr) ns pool_eval_gas))
+                                    b#"lastLoadedTemplate" FVPtr) ns ns pool_eval_gas))
                   end)).
 Proof. exact C01_result_is_function_of_registrations_proof. Qed.
 
@@ -179,6 +179,24 @@ Example C01_example_pinned_differs :
   nth 17 (pool_trace_from pool_cfg_gen c01_ex_store (fun _ => Some O) c01_ex_garbage pool_init c01_ex_ops) POONone =
     POORender (PRErr EOther).
 Proof. vm_compute. split; reflexivity. Qed.
+
+(* a macro whose second parameter defaults to an expression over the caller's variables, reached through an import
+   and from its own template: every call evaluates the default in the context of that call, so the same template
+   rendered with other contexts follows them, and rendering with the first context again reproduces the first output *)
+Definition c01_ex_lib : pool_src :=
+  mk_psrc [PoolT pk_macro [1%N; 1%N; 2%N] [PoolT pk_var [0%N; 0%N] []; PoolT pk_var [4%N; 0%N] []]; PoolT pk_text [3%N] [];
+           PoolT pk_lcall [1%N; 1%N] []] true.
+Definition c01_ex_page : pool_src := mk_psrc [PoolT pk_text [1%N] []; PoolT pk_call [3%N; 1%N; 1%N] []] true.
+Example C01_example_macro_default :
+  pool_trace_from pool_cfg_gen [] (fun _ => Some O) pool_garbage_none pool_init
+    [PORegister 0 3%N c01_ex_lib; PORegister 0 0%N c01_ex_page;
+     PORender 0 0%N [(1%N, 5%N); (2%N, 6%N)]; PORender 0 0%N [(1%N, 5%N); (2%N, 9%N)]; PORender 0 3%N [(1%N, 7%N); (2%N, 8%N)];
+     PORender 0 0%N [(1%N, 5%N); (2%N, 6%N)]; PORender 0 0%N [(1%N, 5%N)]] =
+  [POOReg true; POOReg true;
+   POORender (PROut [PAText 1; PAVal 5; PAVal 6]); POORender (PROut [PAText 1; PAVal 5; PAVal 9]);
+   POORender (PROut [PAText 3; PAVal 7; PAVal 8]);
+   POORender (PROut [PAText 1; PAVal 5; PAVal 6]); POORender (PROut [PAText 1; PAVal 5])].
+Proof. vm_compute. reflexivity. Qed.
 
 Print Assumptions C01_inv_preserved.
 Print Assumptions C01_history_independent.
